@@ -12,7 +12,9 @@ Ghost model of the solver objective (ASSUMED - optlang is external; see the note
                                    one overwritten at the given variables (and which is linear if the old one was);
   objective += e                   the expression of that objective becomes add(old expression, e) (uninterpreted);
   interface.Objective(e, direction=d, ...) a NEW objective with expression e and direction d;
-  interface.Objective.clone(o, model=solver) a NEW objective with expression cloned(o.expression, solver), direction o.direction.
+  interface.Objective.clone(o, model=solver) a NEW objective with expression cloned(o.expression, solver), direction o.direction;
+  expression.atoms(Variable)       the set atoms_of(expression) of optlang Variables occurring in it; `variable.problem` the solver
+                                   var_problem(variable) it belongs to (the helper _valid_atoms is PROVED over these two).
 Flux variables: fwd(r), rev(r) of C01; precondition of the dictionary cases: different reactions have different variables and no
 forward variable is a reverse variable (stated through a left inverse `owner`).
 """
@@ -21,7 +23,7 @@ from .common import *  # noqa
 from . import c01_lp as C1
 from . import c03_context as C3
 from pyvc import npalg as N
-from pyvc.state import alloc_obj, alloc_list
+from pyvc.state import alloc_obj, alloc_list, alloc_set
 
 MS = "cobra/util/solver.py"
 MM = "cobra/core/model.py"
@@ -32,6 +34,8 @@ lin = z3.Function("obj_lin", N.NP, CoefMap)
 is_lin = z3.Function("obj_is_linear", N.NP, z3.BoolSort())
 owner = z3.Function("var_owner", Ref, Ref)                       # the reaction a flux variable belongs to
 valid_atoms = z3.Function("valid_atoms", Ref, N.NP, z3.BoolSort())  # every optlang Variable of the expression belongs to this solver
+atoms_of = z3.Function("expr_atoms", N.NP, z3.ArraySort(Ref, z3.BoolSort()))   # the optlang Variables occurring in an expression
+var_problem = C3.var_problem                                    # the solver a variable belongs to (`variable.problem`)
 cloned = z3.Function("cloned_into", N.NP, Ref, N.NP)            # the expression re-built over the same-named variables of a solver
 ZERO = z3.Const("np:Zero", N.NP)
 INTERFACE = VConc(("optlang-interface",))
@@ -110,6 +114,10 @@ def getattr_hook(eng, st, v, name):
         return [("ok", st, VFunc("abstract", "interface.Objective.clone"))]
     if isinstance(v, VObj) and v.cls == "Objective" and name == "is_Linear":
         return [("ok", st, VBool(is_lin(expr_of(st, v))))]
+    if isinstance(v, VRef) and v.cls == "Variable" and name == "problem":
+        return [("ok", st, VRef(var_problem(v.t), "Solver"))]
+    if isinstance(v, N.VNp) and name == "atoms":
+        return [("ok", st, VFunc("bound", v, "atoms"))]
     return None
 
 
@@ -155,6 +163,10 @@ def call_method_hook(eng, st, recv, name, pos, kw):
             return [("ok", st.updobj(recv.oid, **{"attr:expression": N.VNp(e1)}), recv)]
     if isinstance(recv, VObj) and recv.cls == "DictList" and name == "get_by_any" and len(pos) == 1 and not kw:
         return _get_by_any(eng, st, recv, pos[0])
+    if isinstance(recv, N.VNp) and name == "atoms" and len(pos) == 1 and not kw and isinstance(pos[0], VClass) and pos[0].name == "Variable":
+        # sympy: expression.atoms(Variable) -> the set of optlang Variables occurring in the expression
+        st2, sv = alloc_set(st, "ref:Variable", dom=atoms_of(recv.t))
+        return [("ok", st2, sv)]
     return None
 
 
@@ -203,18 +215,28 @@ HOOKS = chain_hooks({"global": global_hook, "getattr": getattr_hook, "call_abstr
                     N.HOOKS)
 
 
-# ---------------------------------------------------------------- assumed: _valid_atoms (two-line helper over sympy atoms)
-def _va_result(eng, st, E):
+# ---------------------------------------------------------------- _valid_atoms
+def valid_atoms_def(sid, e):
+    """definition of the spec predicate: every optlang Variable occurring in the expression belongs to that solver"""
+    v = qv("av", Ref)
+    return valid_atoms(sid, e) == FA([v], z3.Implies(z3.Select(atoms_of(e), v), var_problem(v) == sid),
+                                     patterns=[z3.Select(atoms_of(e), v)])
+
+
+def _va_args(E, st=None):
     m, e = E["model"], E["expression"]
     if not (isinstance(m, VObj) and m.cls == "Model" and isinstance(e, N.VNp)):
         raise Unsupported("_valid_atoms with these arguments")
-    return st, VBool(valid_atoms(solver_id(st, m), e.t))
+    return solver_id(st or E.s0, m), e.t
 
 
-REG.add(Contract(MS, "_valid_atoms", "C03", [("model", MODEL_T()), ("expression", N.TNp())], [Case("any")], assumed=True,
-                 key="_valid_atoms", result=_va_result,
-                 note="helper of set_objective, NOT verified (sympy `expression.atoms(Variable)`): returns the opaque predicate "
-                      "valid_atoms(model.solver, expression) = every optlang Variable of the expression belongs to the model's solver"))
+REG.add(Contract(MS, "_valid_atoms", "C03", [("model", MODEL_T()), ("expression", N.TNp())],
+                 [Case("any", ensures=lambda E: E.res.t == valid_atoms(*_va_args(E)) if isinstance(E.res, VBool) else z3.BoolVal(False))],
+                 key="_valid_atoms", result=lambda eng, st, E: (st, VBool(valid_atoms(*_va_args(E, st)))),
+                 axioms=lambda E: [valid_atoms_def(*_va_args(E))],
+                 note="returns valid_atoms(model.solver, expression) := every optlang Variable occurring in the expression belongs to "
+                      "the model's solver. ASSUMED (sympy / optlang): expression.atoms(Variable) is the set of those variables, "
+                      "`variable.problem` the solver a variable belongs to"))
 
 
 # ================================================================ set_objective
@@ -421,7 +443,7 @@ REG.add(Contract(MS, "set_objective", "C03", [("model", MODEL_T()), ("value", TD
                       "an expression - ASSUMED contracts of optlang, see the module docstring). Dictionary cases: the coefficients "
                       "are finite reals; PRECONDITIONS (stated, not proved): every listed reaction is in a model (has its two "
                       "solver variables), different reactions have different variables and no forward variable is a reverse "
-                      "variable; the context stack holds no None. `_valid_atoms` is an assumed opaque predicate"))
+                      "variable; the context stack holds no None. `_valid_atoms` is applied by its (proved) contract"))
 
 
 # ================================================================ the nested undo function `reset`
